@@ -8,6 +8,7 @@
 //     ts <suffix> <name>                          -> decimal                   (real test_suffix)
 //     mode <m> <0 same gid|1 group set|2 group fails>  -> decimal mode handed to fchmod by io_copy_attrs
 //     exit <w|e>...                               -> decimal exit_status after these message_warning/message_error calls
+//     args <prog> <env> <o1> <o2>                 -> decimal, real args_parse() (indices: see c19_args.c)
 //     cd <dir>                                    -> "ok"
 //     open <c> <f> <k> <path>                     -> decimal code (see c19.h)  (real io_open_src on a real object)
 //     cycle <c|d> <fmt> <sfx|none> <c> <f> <k> <groupfail> <ownerfail> <path>
@@ -20,16 +21,40 @@
 #include "c19.h"
 
 // ---- globals normally defined in args.c / coder.c / signals.c -------------------------------------------------------
-bool opt_stdout = false;
-bool opt_force = false;
-bool opt_keep_original = false;
-bool opt_synchronous = false;
-bool opt_robot = false;
-bool opt_ignore_check = false;
+// opt_stdout, opt_force, opt_keep_original, opt_synchronous, opt_robot, opt_ignore_check, stdin_filename: the real args.c
+// (c19_args.c). The rest of what args.c / file_io.c reference from coder.c, hardware.c, options.c, util.c, message.c:
 enum operation_mode opt_mode = MODE_COMPRESS;
 enum format_type opt_format = FORMAT_XZ;
+bool opt_auto_adjust = true;
+bool opt_single_stream = false;
+uint64_t opt_block_size = 0;
+block_list_entry *opt_block_list = NULL;
+uint64_t block_list_largest;
+uint32_t block_list_chain_mask;
+uint64_t opt_flush_timeout = 0;
 volatile sig_atomic_t user_abort = 0;
-const char stdin_filename[] = "(stdin)";
+
+void coder_set_check(lzma_check check) { (void)check; }
+void coder_set_preset(uint32_t new_preset) { (void)new_preset; }
+void coder_set_extreme(void) {}
+void coder_add_filter(lzma_vli id, void *options) { (void)id; (void)options; }
+void coder_set_compression_settings(void) {}
+void coder_add_filters_from_str(const char *filter_str) { (void)filter_str; }
+void coder_add_block_filters(const char *str, size_t slot) { (void)str; (void)slot; }
+void hardware_threads_set(uint32_t threadlimit) { (void)threadlimit; }
+void hardware_memlimit_set(uint64_t new_memlimit, bool set_compress, bool set_decompress, bool set_mtdec, bool is_percentage)
+{ (void)new_memlimit; (void)set_compress; (void)set_decompress; (void)set_mtdec; (void)is_percentage; }
+void hardware_memlimit_show(void) {}
+lzma_options_delta *options_delta(const char *str) { (void)str; return NULL; }
+lzma_options_bcj *options_bcj(const char *str) { (void)str; return NULL; }
+lzma_options_lzma *options_lzma(const char *str) { (void)str; return NULL; }
+uint64_t str_to_uint64(const char *name, const char *value, uint64_t min, uint64_t max) { (void)name; (void)value; (void)max; return min; }
+lzma_bool lzma_check_is_supported(lzma_check check) { (void)check; return true; }
+void message_help(bool long_help) { (void)long_help; }
+void message_version(void) {}
+void message_filters_help(void) {}
+void message_verbosity_increase(void) {}
+void message_verbosity_decrease(void) {}
 
 jmp_buf c19_fatal_jmp;
 bool c19_fatal_armed;
@@ -134,8 +159,6 @@ void signals_unblock(void) {}
 void signals_init(void) {}
 void signals_exit(void) {}
 void hardware_init(void) {}
-void args_parse(args_info *args, int argc, char **argv) { (void)args; (void)argc; (void)argv; abort(); }
-void args_free(void) {}
 void coder_run(const char *filename) { (void)filename; abort(); }
 void coder_free(void) {}
 void list_file(const char *filename) { (void)filename; abort(); }
@@ -220,6 +243,7 @@ main(int argc, char **argv)
 		printf("namespace XzVerif.Gen.C19\n\n");
 		c19_probe_tables(stdout);
 		c19_probe_exit(stdout);
+		c19_probe_args(stdout);
 		printf("/-- `IO_BUFFER_SIZE` (src/xz/file_io.h): the unit in which io_write() looks for all-zero buffers -/\n"
 			"def ioBufferSize : Nat := %u\n\n", (unsigned)IO_BUFFER_SIZE);
 		fflush(stdout);
@@ -285,6 +309,8 @@ main(int argc, char **argv)
 			}
 			printf("%d\n", c19_exit_get());
 			c19_exit_reset();
+		} else if (!strcmp(op, "args") && l.ntok == 5) {
+			printf("%d\n", c19_args_code((int)hp_u64(l.tok[1]), (int)hp_u64(l.tok[2]), (int)hp_u64(l.tok[3]), (int)hp_u64(l.tok[4])));
 		} else if (!strcmp(op, "cd") && l.ntok == 2) {
 			char *d = cstr(l.tok[1]);
 			printf("%s\n", chdir(d) == 0 ? "ok" : "fail");
